@@ -37,7 +37,15 @@ SameConfiguration ==
   /\ S.fault = S0.fault
 SepErase ==
   /\ EraseSep(S.toks) = S0.toks
-  /\ S.errs = S0.errs /\ S.lines = S0.lines /\ S.nlit = S0.nlit
+  /\ Len(S.errs) = Len(S0.errs)
+  /\ \A i \in 1..Len(S.errs) :
+        LET x == S.errs[i]  y == S0.errs[i] IN
+        /\ x.k = y.k /\ x.c = y.c
+        \* the last-token index of an error maps through the erasure and never designates a separator
+        /\ IF x.lt < 0 THEN y.lt = x.lt
+           ELSE /\ x.lt < Len(S.toks) /\ S.toks[x.lt + 1].ty # "MacroSep"
+                /\ y.lt = x.lt - Cardinality({j \in 1..x.lt + 1 : S.toks[j].ty = "MacroSep"})
+  /\ S.lines = S0.lines /\ S.nlit = S0.nlit
   /\ \A i \in 1..Len(S0.toks) : S0.toks[i].ty # "MacroSep"
 SepPlacement ==
   \A i \in 1..Len(S.toks) :
